@@ -13,8 +13,11 @@ pub fn generate(prop: &str, thorough: bool, seed: u64, w: W) -> std::io::Result<
         "C03" => c03(&mut r, thorough, w),
         "C04" => c04(&mut r, thorough, w),
         "C05" => c05(&mut r, thorough, w),
+        "C06" => c06(&mut r, thorough, w),
         "C13" => c13(&mut r, thorough, w),
         "C10" => c10(&mut r, thorough, w),
+        "C11" => c11(&mut r, thorough, w),
+        "C12" => c12(&mut r, thorough, w),
         "C09" => c09(&mut r, thorough, w),
         "C07" => c07(&mut r, thorough, w, "READ"),
         "C08" => c07(&mut r, thorough, w, "AREAD"),
@@ -890,6 +893,221 @@ fn c09(r: &mut Rng, thorough: bool, w: W) -> std::io::Result<()> {
             }
         }
         writeln!(w, "FILT {} {} {}", p_bool(storage), p_filter(&f), hex(&bytes))?;
+    }
+    Ok(())
+}
+
+use crate::fibex;
+
+fn c11(r: &mut Rng, thorough: bool, w: W) -> std::io::Result<()> {
+    let n = if thorough { 30_000 } else { 500 };
+    for i in 0..n {
+        let m = fibex::gen_model(r);
+        let pretty = i % 3 == 2;
+        let xmls: Vec<Vec<u8>> = m
+            .files
+            .iter()
+            .map(|d| {
+                let x = fibex::render_xml(d);
+                if pretty { fibex::prettify(r, &x).into_bytes() } else { x.into_bytes() }
+            })
+            .collect();
+        let files: Vec<Option<Vec<u8>>> = xmls.iter().cloned().map(Some).collect();
+        let (_marks, evs) = fibex::request_files(&files);
+        let mut line = format!("FIBEXDOC {} {}", if pretty { "p" } else { "c" }, m.files.len());
+        for (d, x) in m.files.iter().zip(xmls.iter()) {
+            line.push_str(&format!(" {} {}", fibex::p_doc(d), hex(x)));
+        }
+        writeln!(w, "{} {} EV{}", line, fibex::p_lookups(&m.lookups), evs)?;
+    }
+    Ok(())
+}
+
+fn damage(r: &mut Rng, x: &[u8]) -> Vec<u8> {
+    let mut v = x.to_vec();
+    if v.is_empty() {
+        return v;
+    }
+    match r.below(8) {
+        0 | 1 | 2 => {
+            let c = r.below(v.len() as u64) as usize;
+            v.truncate(c);
+        }
+        3 => {
+            // delete an element or attribute: cut between two '<' or remove an attribute value
+            let s = String::from_utf8_lossy(&v).into_owned();
+            let idxs: Vec<usize> = s.match_indices('<').map(|(i, _)| i).collect();
+            if idxs.len() > 3 {
+                let a = r.below(idxs.len() as u64 - 1) as usize;
+                let b = (a + 1 + r.below(3) as usize).min(idxs.len() - 1);
+                let mut t = s[..idxs[a]].to_string();
+                t.push_str(&s[idxs[b]..]);
+                v = t.into_bytes();
+            }
+        }
+        4 => {
+            let s = String::from_utf8_lossy(&v).into_owned();
+            let pats = [" ID=\"", " ID-REF=\"", " ho:BASE-DATA-TYPE=\"", "<fx:BYTE-LENGTH>", "<fx:SEQUENCE-NUMBER>", "<ho:SHORT-NAME>"];
+            let p = *r.pick(&pats);
+            let occ: Vec<usize> = s.match_indices(p).map(|(i, _)| i).collect();
+            if !occ.is_empty() {
+                let i = *r.pick(&occ);
+                let mut t = s[..i].to_string();
+                t.push_str(&s[i + p.len()..]);
+                v = t.into_bytes();
+            }
+        }
+        5 | 6 => {
+            let k = r.range(1, 3);
+            for _ in 0..k {
+                let i = r.below(v.len() as u64) as usize;
+                v[i] = *r.pick(&[b'<', b'>', b'"', b'&', 0u8, 0xff, b'/', b' ', b'=', b'x', b'9']);
+            }
+        }
+        _ => {
+            let i = r.below(v.len() as u64) as usize;
+            let k = r.range(1, 5) as usize;
+            let ins = r.bytes(k);
+            v.splice(i..i, ins);
+        }
+    }
+    v
+}
+
+fn c12(r: &mut Rng, thorough: bool, w: W) -> std::io::Result<()> {
+    let repo_docs: Vec<Vec<u8>> = ["/repo/tests/dlt-messages.xml", "/repo/tests/robustness.xml"]
+        .iter()
+        .filter_map(|p| std::fs::read(p).ok())
+        .collect();
+    let emit = |w: W, files: Vec<Option<Vec<u8>>>| -> std::io::Result<()> {
+        let (marks, evs) = fibex::request_files(&files);
+        writeln!(w, "FIBEX {}{} 0 EV{}", files.len(), marks, evs)
+    };
+    // missing path, empty file, no path at all, intact repository documents
+    emit(w, vec![None])?;
+    emit(w, vec![Some(vec![])])?;
+    emit(w, vec![])?;
+    for d in &repo_docs {
+        emit(w, vec![Some(d.clone())])?;
+        emit(w, vec![Some(d.clone()), None])?;
+    }
+    // every truncation offset of the small repository document (thorough: of both), and of a generated one
+    for (di, d) in repo_docs.iter().enumerate() {
+        let step = if thorough { 1 } else if di == 0 { 37 } else { 3 };
+        let mut k = 0;
+        while k < d.len() {
+            emit(w, vec![Some(d[..k].to_vec())])?;
+            k += step;
+        }
+    }
+    let n = if thorough { 30_000 } else { 1_200 };
+    for i in 0..n {
+        let base: Vec<u8> = if i % 4 == 0 && !repo_docs.is_empty() {
+            r.pick(&repo_docs).clone()
+        } else {
+            let m = fibex::gen_model(r);
+            let d: Vec<fibex::Elem> = m.files.into_iter().flatten().collect();
+            let x = fibex::render_xml(&d);
+            if r.flip() { fibex::prettify(r, &x).into_bytes() } else { x.into_bytes() }
+        };
+        let v = damage(r, &base);
+        if r.chance(1, 6) {
+            emit(w, vec![Some(base.clone()), Some(v)])?;
+        } else {
+            emit(w, vec![Some(v)])?;
+        }
+    }
+    Ok(())
+}
+
+/// junk that contains no occurrence of the pattern, also none straddling into a following
+/// pattern: no 'D' at all, or ending in a proper prefix of the pattern only when asked
+fn junk_no_pattern(r: &mut Rng, allow_d: bool) -> Vec<u8> {
+    let n = r.below(41) as usize;
+    let mut v: Vec<u8> = (0..n)
+        .map(|_| match r.below(6) {
+            0 => 0x4c,
+            1 => 0x54,
+            2 => 0x01,
+            _ => r.next() as u8,
+        })
+        .collect();
+    for b in v.iter_mut() {
+        if *b == 0x44 {
+            *b = 0x45;
+        }
+    }
+    if allow_d && r.chance(1, 3) {
+        // 'D's that cannot start an occurrence: followed by something else than 'L'
+        for _ in 0..r.below(4) {
+            if v.len() >= 2 {
+                let i = r.below(v.len() as u64 - 1) as usize;
+                v[i] = 0x44;
+                if v[i + 1] == 0x4c {
+                    v[i + 1] = 0x4d;
+                }
+            }
+        }
+    }
+    v
+}
+
+fn c06(r: &mut Rng, thorough: bool, w: W) -> std::io::Result<()> {
+    let n = if thorough { 400_000 } else { 8_000 };
+    // search: partial patterns at the end, overlapping starts, pattern at 0, several patterns
+    let pat = [0x44u8, 0x4c, 0x54, 0x01];
+    let fixed: Vec<Vec<u8>> = vec![
+        vec![],
+        pat.to_vec(),
+        vec![0x44, 0x4c, 0x54],
+        vec![0x44, 0x4c, 0x44, 0x4c, 0x54, 0x01],
+        vec![0x44, 0x44, 0x4c, 0x54, 0x01, 0x44, 0x4c, 0x54, 0x01],
+        vec![0x01, 0x54, 0x4c, 0x44],
+        vec![0, 0x44, 0x4c, 0x54, 0x00, 0x44, 0x4c, 0x54, 0x01, 9],
+    ];
+    for f in fixed {
+        writeln!(w, "FWD {}", hex(&f))?;
+    }
+    for i in 0..n {
+        match i % 8 {
+            0..=4 => {
+                // search over strings rich in pattern fragments
+                let len = r.below(40) as usize;
+                let mut v: Vec<u8> = (0..len)
+                    .map(|_| match r.below(8) {
+                        0 | 1 => 0x44,
+                        2 => 0x4c,
+                        3 => 0x54,
+                        4 => 0x01,
+                        _ => r.next() as u8,
+                    })
+                    .collect();
+                if r.chance(1, 2) && v.len() >= 4 {
+                    let p = r.below(v.len() as u64 - 3) as usize;
+                    v[p..p + 4].copy_from_slice(&pat);
+                }
+                if r.chance(1, 6) {
+                    let k = r.range(1, 3) as usize;
+                    v.extend_from_slice(&pat[..k]);
+                }
+                writeln!(w, "FWD {}", hex(&v))?;
+            }
+            5 | 6 => {
+                let m = message(r, &MsgOpts { storage: Some(true), big: false, max_args: 4 });
+                let j = junk_no_pattern(r, true);
+                writeln!(w, "JUNK {} {} {}", hex(&j), p_message(&m), hex(&suffix(r)))?;
+            }
+            _ => {
+                let k = r.range(1, 6) as usize;
+                let mut line = format!("STREAM {}", k);
+                for _ in 0..k {
+                    let m = message(r, &MsgOpts { storage: Some(true), big: false, max_args: 3 });
+                    let j = junk_no_pattern(r, false);
+                    line.push_str(&format!(" {} {}", hex(&j), p_message(&m)));
+                }
+                writeln!(w, "{}", line)?;
+            }
+        }
     }
     Ok(())
 }
